@@ -328,8 +328,9 @@ func addFors(r *rand.Rand, items [][]int64, o progOpts) [][]int64 {
 		countEqus = append(countEqus, e.enc([]int64{1, id}))
 		return id
 	}
-	var build func(depth int, mult int) []int64
-	build = func(depth int, mult int) []int64 {
+	var blockLabels []int64
+	var build func(depth int, mult int, outer []int64) []int64
+	build = func(depth int, mult int, outer []int64) []int64 {
 		cnt := r.Intn(7)
 		if (cnt+1)*mult > budget {
 			cnt = 1
@@ -338,8 +339,14 @@ func addFors(r *rand.Rand, items [][]int64, o progOpts) [][]int64 {
 		counter := next
 		next++
 		out := []int64{2}
-		if depth == 0 && r.Intn(3) == 0 {
-			out = append(out, 1, 90+counter-80)
+		visible := append([]int64{}, outer...)
+		if depth == 0 && r.Intn(2) == 0 {
+			// a block label: an ordinary label of the first instruction the block emits, usable
+			// inside the body (of this block and of nested ones) and from outside the block
+			lab := 90 + counter - 80
+			out = append(out, 1, lab)
+			visible = append(visible, lab)
+			blockLabels = append(blockLabels, lab)
 		} else {
 			out = append(out, 0)
 		}
@@ -382,16 +389,24 @@ func addFors(r *rand.Rand, items [][]int64, o progOpts) [][]int64 {
 		}
 		nb := 1 + r.Intn(2)
 		var body [][]int64
-		for i := 0; i < nb; i++ {
-			g := &egen{r: r, names: []int64{counter}, maxLit: 30}
-			body = append(body, genInstr(r, progOpts{mode: o.mode, exprDepth: 2, maxInstr: 1}, g, nil))
-		}
-		if depth < 2 && r.Intn(3) == 0 && budget > 4 {
+		nestFirst := depth < 2 && r.Intn(3) == 0 && budget > 4
+		nest := func() {
 			m2 := mult * cnt
 			if m2 < 1 {
 				m2 = 1
 			}
-			body = append(body, build(depth+1, m2))
+			body = append(body, build(depth+1, m2, visible))
+		}
+		if nestFirst && r.Intn(2) == 0 {
+			nest() // the first thing the block emits comes out of the nested block
+			nestFirst = false
+		}
+		for i := 0; i < nb; i++ {
+			g := &egen{r: r, names: append([]int64{counter}, visible...), maxLit: 30}
+			body = append(body, genInstr(r, progOpts{mode: o.mode, exprDepth: 2, maxInstr: 1}, g, nil))
+		}
+		if nestFirst {
+			nest()
 		}
 		out = append(out, int64(len(body)))
 		for _, b := range body {
@@ -400,13 +415,34 @@ func addFors(r *rand.Rand, items [][]int64, o progOpts) [][]int64 {
 		return out
 	}
 	nblocks := 1 + r.Intn(3)
+	early := [][]int64{}
 	for b := 0; b < nblocks && budget > 2; b++ {
 		pos := r.Intn(len(items) + 1)
-		blk := build(0, 1)
-		items = append(items[:pos], append([][]int64{blk}, items[pos:]...)...)
+		before := len(countEqus)
+		blk := build(0, 1, nil)
+		ins := [][]int64{}
+		// the EQUs a count uses are defined somewhere before the block that uses them: at the very
+		// top, or right in front of the block (after earlier blocks)
+		for _, e := range countEqus[before:] {
+			if r.Intn(2) == 0 {
+				early = append(early, e)
+			} else {
+				ins = append(ins, e)
+			}
+		}
+		ins = append(ins, blk)
+		items = append(items[:pos], append(ins, items[pos:]...)...)
 	}
-	// the EQUs used by counts are defined before the first FOR
-	return append(countEqus, items...)
+	// block labels are referenced from outside their block too, before and after it
+	for _, lab := range blockLabels {
+		if r.Intn(2) == 0 {
+			g := &egen{r: r, names: []int64{lab}, maxLit: 30}
+			ref := genInstr(r, progOpts{mode: o.mode, exprDepth: 1, maxInstr: 1}, g, nil)
+			pos := r.Intn(len(items) + 1)
+			items = append(items[:pos], append([][]int64{ref}, items[pos:]...)...)
+		}
+	}
+	return append(early, items...)
 }
 
 // genWarriors emits kind 32: [32; cfg; style; start; n; code...] with every field legal in the dialect
@@ -418,6 +454,14 @@ func genWarriors(w *bufio.Writer, r *rand.Rand, n int, mode int64, int32Fields b
 			cfg.rl, cfg.wl = cfg.m, cfg.m
 		}
 		ln := 1 + r.Intn(8)
+		if k%6 == 5 {
+			// a warrior of exactly the configured maximum length (and one of length max-1)
+			cfg.ln = int64(3 + r.Intn(18))
+			if cfg.ds < cfg.ln {
+				cfg.ds = cfg.ln
+			}
+			ln = int(cfg.ln) - r.Intn(2)
+		}
 		c := append([]int64{32}, cfg.enc()...)
 		c = append(c, r.Int63n(1<<20), int64(r.Intn(ln)), int64(ln))
 		for i := 0; i < ln; i++ {
